@@ -87,6 +87,14 @@ fn dispatch<P: Prop>(cmd: &str, args: &[String]) -> i32 {
             let g = |i: usize| args.get(i).cloned().unwrap_or_default();
             driver::replay::<P>(&g(2), &g(3), args.iter().any(|a| a == "--expect"))
         }
+        "show-workload" => {
+            let g = |i: usize| args.get(i).cloned().unwrap_or_default();
+            driver::show_workload::<P>(
+                g(2).parse().unwrap_or(driver::DEFAULT_SEED),
+                g(3) == "thorough",
+                g(4).parse().unwrap_or(0),
+            )
+        }
         "minimise" => {
             let g = |i: usize| args.get(i).cloned().unwrap_or_default();
             driver::minimise_file::<P>(
